@@ -45,7 +45,7 @@ RULE = ("Hypothesis-generated scenarios (connect script, console delays / silenc
         "instant drawn from the scenario's own event instants (+/- 1/16 s, both same-instant orders) x optional re-init; "
         "non-trivial: shutdown lands while a connection attempt, a retry delay, a handshake or pending messages are in "
         "flight, or in the same instant as a scenario event; distinct by (scenario, instant)"
-        " Also: TCP close latency, a console that stops reading, write faults in the instant of a send, resets requested from outside, a third same-instant order with 0..7 loop turns, the instants of the last handshake answers, re-opening the closed socket, close() while a write is stalled by back-pressure, pile-ups of resets in the instant a connection is established.")
+        " Also: TCP close latency, a console that stops reading, write faults in the instant of a send, resets requested from outside, a third same-instant order with 0..7 loop turns, the instants of the last handshake answers, re-opening the closed socket, close() while a write is stalled by back-pressure, pile-ups of resets in the instant a connection is established, a queue of messages behind a flush that is stalled in drain() when close() comes (writes handed to dead connections are counted exactly at the return of close()).")
 ASSUMPTIONS = ["timers and tasks created by the harness (console answer delays, scenario events) are cancelled by the harness at the "
                "shutdown instant and are not counted as leaks",
                "after shutdown the simulated network accepts every connection attempt immediately"]
